@@ -188,6 +188,22 @@ def correspond(ctx):
                     e = build(); o = 'len=%d val=%s' % (len(e), vtok(list(e.value())))
                 except (TypeError, ValueError, IndexError, NotImplementedError): o = 'refused'
                 lines.append('expr ' + t); obs.append(o); toks.append(t)
+        # directed: the scalar variable (length 1) occurring several times in a vector expression, with scalar and with column coefficients
+        y0 = g.vars[0]
+        for j, L in enumerate(g.lens):
+            if L < 2: continue
+            xj = g.vars[j]; bcol = cvxopt.matrix([float(k_ + 2) for k_ in range(L)])
+            for nm, build, t in (
+                    ('(x + y) + 2*y', lambda: (xj + y0) + 2.0 * y0, 'add add var %d var 0 smul 2 var 0' % j),
+                    ('(x + y) - y', lambda: (xj + y0) - y0, 'sub add var %d var 0 var 0' % j),
+                    ('(y + x) + y*2', lambda: (y0 + xj) + y0 * 2.0, 'add add var 0 var %d smul 2 var 0' % j),
+                    ('y + b*y', lambda: y0 + bcol * y0, 'add var 0 mmul %s var 0' % ';'.join(frs(a) for a in bcol)),
+                    ('(x + y) + b*y', lambda: (xj + y0) + bcol * y0, 'add add var %d var 0 mmul %s var 0' % (j, ';'.join(frs(a) for a in bcol))),
+                    ('b*y - y', lambda: bcol * y0 - y0, 'sub mmul %s var 0 var 0' % ';'.join(frs(a) for a in bcol))):
+                try:
+                    e = build(); o = 'len=%d val=%s' % (len(e), vtok(list(e.value())))
+                except (TypeError, ValueError, IndexError, NotImplementedError): o = 'refused'
+                lines.append('expr ' + t); obs.append(o); toks.append(t)
     # non-aliasing: every operator returns a new object; mutating the result in place leaves the operands as they were
     n2 = 300 if ctx.quick() else 6000
     for v, x in zip(g.vars, vals[0]): v.value = cvxopt.matrix(x)
